@@ -16,10 +16,15 @@
    * c05_refuses (refused <-> WErr), c05_perm(_weighted), c05_probe_refuted (the one shape excluded from in_fragment: KNOWN finding probe-leading-9).
    The reader half rests on C07's completeness theorem (V.C07.ProofsTop.complete = c07_complete): the writer's text is shown to be the
    rendering of a laid-out program (C07/Spec.v) that is layout_ok, in_range and denotes sm_norm p.
+   * a caller that CATCHES a refusal and continues with the same writer (sm_run_c; refused = c05_refuses): c05_refused_state (what a refused
+     call leaves behind, exactly: nothing written; the state record is untouched except initProgram's inc_, which no later call can observe),
+     c05_refused_no_trace (the state after a refused call is indistinguishable from the state before), c05_continue_accepted (EVERY history: the
+     text is the text of the accepted calls alone, from every indistinguishable state), c05_continue_roundtrip (... and is read back as their
+     normal form).  The former exception (fHead_ set by a refused weight rule with empty head) was a defect, repaired in /repo d5c8ba1.
    NOT covered by the theorem (outside the property's quantifier, see notes/C05.md): names containing LF/CR/NUL, negative rule-body weights,
    minimize/external after symbols, |minimize weight| = 2^31, values outside the C types. *)
 Require Import V.Lib.Base V.Lib.Calls V.Lib.Dec V.C09.Spec V.Gen.Consts V.Gen.Consts_C07 V.C07.Model V.C07.ProofsLex.
-Require Import V.C05.Model V.C05.Spec V.C05.Proofs V.C05.ProofsRT V.C05.ProofsLines V.C05.ProofsComp V.C05.XCheck.
+Require Import V.C05.Model V.C05.Spec V.C05.Proofs V.C05.ProofsRT V.C05.ProofsLines V.C05.ProofsComp V.C05.XCheck V.C05.ProofsCont.
 Require Import Permutation.
 Local Open Scope Z_scope.
 
@@ -244,3 +249,68 @@ Proof. split; vm_compute; reflexivity. Qed.
 Example c05_ex_refused : refused (w_init false 0) (CRule 0 [] [1]) = true /\ refused (w_init false 0) (CExternal 1 0) = true
   /\ refused (w_init true 0) (CExternal 1 0) = false.
 Proof. repeat split. Qed.
+
+(* ================= a caller that catches a refusal and continues with the same writer ================= *)
+(* A call is REFUSED in state s iff refused s c = true (c05_refuses: init(true) without extensions; rule with sec_ <> 0, integrity constraint without
+   false atom; weight rule additionally with choice / disjunctive head or negative bound; output after compute or with a condition that is not one
+   positive literal; external without extensions; second compute statement; project / heuristic / edge / theory).  sm_run_c is the history of a
+   caller that catches each refusal: text written + one accepted flag per call; the flag of a call is exactly negb (refused ..) in the state it meets. *)
+Theorem c05_continue_flags : forall cs s t fl, sm_run_c s cs = (t, fl) ->
+  length fl = length cs /\ match cs, fl with c :: _, b :: _ => b = negb (refused s c) | [], [] => True | _, _ => False end.
+Proof. intros cs s t fl H. split; [exact (run_c_length cs s t fl H) | exact (run_c_flags cs s t fl H)]. Qed.
+Print Assumptions c05_continue_flags.
+
+(* what a refused call leaves behind, EXACTLY (it writes nothing: sm_run_c adds no byte for it): the whole state record is unchanged unless the
+   call is initProgram(b) with b <> inc_ (inc_ = b precedes the REQUIRE; code as it is) - and with the extensions on, where inc_ is read, never *)
+Theorem c05_refused_state : forall s c, sm_step s c = WErr ->
+  (sm_refused_state s c = s <-> inc_leak s c = false) /\ (w_ext s = true -> sm_refused_state s c = s).
+Proof. intros s c H. split; [now apply refused_state_exact | now apply refused_state_ext]. Qed.
+Print Assumptions c05_refused_state.
+(* no refused call - of any kind, in any state - leaves a trace: the state after it is indistinguishable from the state before (obs_eq: all members
+   equal, inc_ only where ext_ is on: inc_ is read only as ext_ && inc_), and indistinguishable states take the same steps with the same text *)
+Theorem c05_refused_no_trace : forall s c, sm_step s c = WErr -> obs_eq (sm_refused_state s c) s.
+Proof. exact refused_obs_eq. Qed.
+Print Assumptions c05_refused_no_trace.
+Theorem c05_obs_eq_step : forall s s' c, obs_eq s s' ->
+  match sm_step s c, sm_step s' c with
+  | WOk a t, WOk b t' => t = t' /\ obs_eq a b
+  | WErr, WErr => True
+  | _, _ => False
+  end.
+Proof. exact step_obs_eq. Qed.
+Print Assumptions c05_obs_eq_step.
+
+(* ALL histories: the text written by the caller who catches and continues is the text of the accepted calls alone (which are all accepted
+   again), started from any indistinguishable state *)
+Theorem c05_continue_accepted : forall cs s s' t fl, obs_eq s s' -> sm_run_c s cs = (t, fl) -> sm_run s' (keep cs fl) = (t, true).
+Proof. exact cont_accepted. Qed.
+Print Assumptions c05_continue_accepted.
+(* property level: if the accepted calls form a program of the fragment, the text is read back as their normal form - a refused call leaves no trace *)
+Theorem c05_continue_roundtrip : forall (ext flt : bool) (f : Z) (cs : list call) (t : list Z) (fl : list bool),
+  sm_run_c (w_init ext f) cs = (t, fl) -> in_fragment ext f (keep cs fl) = true ->
+  read_smodels (mkopts ext flt) t = (sm_norm f (keep cs fl), Ok tt).
+Proof. exact cont_roundtrip. Qed.
+Print Assumptions c05_continue_roundtrip.
+
+(* non-vacuity: a history with six refused calls (project; negative bound; general output as FIRST output of the step; heuristic; weight rule with
+   choice head; weight rule with EMPTY head and negative bound - the shape of the repaired defect d5c8ba1: before the repair it left fHead_ set and
+   the compute statement listed the false atom 7) followed by minimize / external / rules / outputs / compute: the accepted calls are a program of
+   the fragment, the text is that of the accepted calls and comes back as their normal form (no ':- 7') *)
+Definition ex_cont : list call :=
+  [CInit false; CBegin; CRule 0 [1] [2; -3]; CProject [1]; CWRule 0 [1] (-1) [(2, 1)]; COutput [120] [1; 2]; CMin 0 [(1, 2)]; CExternal 3 Value_t_True;
+   CHeuristic 1 0 1 1 []; CWRule 1 [4] 1 [(2, 1)]; CWRule 0 [] (-1) [(2, 1)]; CRule 1 [4; 5] []; COutput [97] [1]; COutput [98] [-1]; COutput [99] [4];
+   CAssume [1]; CEnd].
+Definition ex_cont_flags : list bool :=
+  [true; true; true; false; false; false; true; true; false; false; false; true; true; false; true; true; true].
+Example c05_ex_continue :
+  snd (sm_run_c (w_init true 7) ex_cont) = ex_cont_flags /\
+  in_fragment true 7 (keep ex_cont ex_cont_flags) = true /\
+  keep ex_cont ex_cont_flags = [CInit false; CBegin; CRule 0 [1] [2; -3]; CMin 0 [(1, 2)]; CExternal 3 Value_t_True; CRule 1 [4; 5] [];
+                                COutput [97] [1]; COutput [99] [4]; CAssume [1]; CEnd] /\
+  read_smodels (mkopts true false) (fst (sm_run_c (w_init true 7) ex_cont)) = (sm_norm 7 (keep ex_cont ex_cont_flags), Ok tt) /\
+  sm_norm 7 (keep ex_cont ex_cont_flags) = [CInit false; CBegin; CRule 0 [1] [-3; 2]; CMin 0 [(1, 2)]; CExternal 3 Value_t_True; CRule 1 [4; 5] [];
+                                            COutput [97] [1]; COutput [99] [4]; CRule 0 [] [-1]; CEnd].
+Proof. repeat split; vm_compute; reflexivity. Qed.
+(* the one member a refused call can change: refused init(true) without extensions stores inc_ = true - a different record, an indistinguishable state *)
+Example c05_ex_obs_eq : obs_eq (sm_refused_state (w_init false 0) (CInit true)) (w_init false 0) /\ sm_refused_state (w_init false 0) (CInit true) <> w_init false 0.
+Proof. split; [apply refused_obs_eq; reflexivity | vm_compute; discriminate]. Qed.
